@@ -1,4 +1,5 @@
 """C20 — generated source files are syntactically well-formed."""
+import ast
 import collections
 import concurrent.futures
 import gc
@@ -588,6 +589,89 @@ def payload_text(name: str, category: str) -> str:
     return di.PAYLOADS_CORE.get(name) or di.PAYLOADS_EXTRA[name]
 
 
+#: literal parts of interpolated patterns; what matters is how the two kinds of quotes are
+#: spread over the parts (a generator that picks the quoting per part, or from one part
+#: only, ends a literal early)
+QUOTE_PARTS = ["", "x", '"', "'", "\"'", "''\"", "\"\"'", "'x'", '"x"', "\\\\.'", '\\\\."', "y{{2}}'"]
+
+
+def interpolated_pattern_models(chk: harness.Check) -> List[Tuple[str, str]]:
+    """Models whose pattern functions interpolate variables between quote-laden parts."""
+    rng = chk.rng("interpolated-patterns")
+    combos = [(a, b, c) for a in QUOTE_PARTS for b in QUOTE_PARTS for c in QUOTE_PARTS
+              if any(("'" in p or '"' in p) for p in (a, b, c))]
+    rng.shuffle(combos)
+    # the mirror cases first: the majority of one part disagrees with the overall majority
+    pinned = [("(\"", "\"|\"\"|'", "')"), ("('", "'|''|\"", "\")"), ("\"\"", "'", "x"), ("''", "\"", "x")]
+    n_models, per_model = chk.pick((3, 10), (12, 24))
+    models = []
+    queue = pinned + combos
+    for k in range(n_models):
+        mine, queue = queue[:per_model], queue[per_model:]
+        lines = [
+            "from re import match",
+            "from typing import List, Optional",
+            "",
+            "from icontract import invariant, DBC",
+            "",
+            "from aas_core_meta.marker import verification",
+            "",
+        ]
+        names = []
+        for j, (a, b, c) in enumerate(mine):
+            name = f"matches_mix_{j}"
+            names.append(name)
+            body = a + "{word}" + b + "{other}" + c
+
+            def esc(text: str) -> str:
+                return text.replace('"', '\\"')
+
+            lines += [
+                "",
+                "@verification",
+                f"def {name}(text: str) -> bool:",
+                f'    """Check that :paramref:`text` matches the mix {j}."""',
+                '    word = "[a-z]+"',
+                '    other = f"({word}|[0-9])"',
+                f'    pattern = f"^{esc(body)}$"',
+                "",
+                "    return match(pattern, text) is not None",
+                "",
+            ]
+        for j, name in enumerate(names[:6]):
+            lines += [
+                "",
+                f'@invariant(lambda self: {name}(self), "Must match the mix {j}.")',
+                f"class Mixed_text_{j}(str, DBC):",
+                f'    """Represent a text of the mix {j}."""',
+                "",
+            ]
+        lines += [
+            "",
+            f'@invariant(lambda self: {names[-1]}(self.text), "Text must match.")',
+            "class Something(DBC):",
+            '    """Represent something."""',
+            "",
+            "    text: str",
+            '    """Text of something"""',
+            "",
+            '    brief_text: "Mixed_text_0"',
+            '    """Brief text of something"""',
+            "",
+            '    def __init__(self, text: str, brief_text: "Mixed_text_0") -> None:',
+            "        self.text = text",
+            "        self.brief_text = brief_text",
+            "",
+            "",
+            '__version__ = "dummy"',
+            '__xml_namespace__ = "https://dummy.com"',
+            "",
+        ]
+        models.append((f"interpolated-patterns/{chk.seed}/{k}", "\n".join(lines)))
+    return models
+
+
+
 def run_baseline(w: "Worker", base_name: str, sites: di.Sites, with_cpp: bool) -> None:
     clean = di.clean_variant(sites, w.chk.rng("clean", base_name))
     w.skip_cpp = not with_cpp
@@ -624,6 +708,21 @@ def worker(args) -> Dict[str, Any]:
                 w.process(list(batch))
                 batch.clear()
 
+        # interpolated patterns with quotes spread over the literal parts (no baseline:
+        # every parse failure of their output counts)
+        if not only:
+            for k, (model_name, model_text) in enumerate(interpolated_pattern_models(chk)):
+                if k % n_shards != shard:
+                    continue
+                try:
+                    ast.parse(model_text)
+                except SyntaxError:
+                    chk.harness_error(f"interpolated-pattern model {model_name} is not Python")
+                    continue
+                before = chk.counters.get("variants_generated", 0)
+                w.process([Variant(model_name, "quote-mix", "pattern-interpolated", model_text, False)])
+                if chk.counters.get("variants_generated", 0) > before:
+                    chk.count("interpolated_pattern_models_generated")
         for index, (b, name, category) in enumerate(mine):
             # soft budget; on a crowded machine go on (up to three times the budget) until
             # this worker has contributed its share of the minimum observations
@@ -710,6 +809,8 @@ def main(argv) -> int:
         "reported once under .../no-payload/... and not attributed to a payload"
     )
     chk.require_min("variants_generated", chk.pick(20, 200))
+    if not os.environ.get("VF_C20_FILTER"):
+        chk.require_min("interpolated_pattern_models_generated", 1)
     for name, quick, thorough in (
         ("files_parsed/python", 40, 400), ("files_parsed/java", 60, 400),
         ("files_parsed/typescript", 40, 400), ("files_parsed/csharp", 40, 400),
